@@ -72,6 +72,11 @@ def run(ctx):
         "parameter names given by the user are Go identifiers (the source compiles)",
     ]
     ctx.obligations_or_violation()
+    ok, log = ctx.coq_build(["theories/IFaceJudge.vo"])
+    if not ok:
+        ctx.report({"unchecked": "coq build of the judge", "detail": log[-3000:]}, {"kind": "coq_build"},
+                   failing_input=False)
+        return
     ctx.add_repo_file("gencommon/export_verif.go", il.EXPORT_VERIF)
     binp, log = ctx.build_harness("c19")
     if not binp:
@@ -86,12 +91,14 @@ def run(ctx):
         ctx.report({"unchecked": "harness run", "detail": err}, {"kind": "harness"}, failing_input=False)
         return
     ctx.log("farm: %d cases from %d programs" % (len(jsons), len({j["prog"] + j["kind"] for j in jsons})))
-    bad, nt, err = judge(ctx, terms, "cases", nontrivial="c19_nontrivial")
+    allbad, nt, err = judge(ctx, terms, "cases", fn="c19_judge_all", nontrivial="c19_nontrivial")
+    bad = [(i, c) for i, c in allbad if c < 10]
+    info = [(i, c) for i, c in allbad if c >= 10]
     if err:
         ctx.report({"unchecked": "in-kernel evaluation of the correspondence", "detail": err},
                    {"kind": "coq_eval"}, failing_input=False)
         return
-    info, _, err2 = judge(ctx, terms, "info", fn="c19_judge_info")
+    err2 = None
     # one replay per distinct shape of failure (smallest case of the shape), not one per option combination
     shapes = {}
     for i, code in bad:
@@ -152,6 +159,7 @@ def replay(ctx, path):
     if not case.get("desc"):
         print(json.dumps(case, indent=1)[:4000])
         return 0
+    ctx.coq_build(["theories/IFaceJudge.vo"])
     ctx.add_repo_file("gencommon/export_verif.go", il.EXPORT_VERIF)
     binp, log = ctx.build_harness("c19")
     if not binp:
